@@ -67,7 +67,7 @@ def cases(tier, seed):
         if cfg["jac"] == "callable" and i % 4 == 1:
             cfg["reuse_grad_buffer"] = True  # the user's gradient fills and returns one preallocated array; results are audited at the end
         if i % 3 == 2:
-            cfg["logger"] = True  # a user-supplied logger at various verbosity levels
+            cfg["logger"] = gen.pick(rng, [True, True, "WARNING", "INFO"])  # a user-supplied logger (DEBUG level, or never configured below WARNING, or INFO) at various verbosity levels
             cfg["iprint"] = int(gen.pick(rng, [-1, 0, 1, 50, 99, 101]))
         restarts = []
         for _ in range(int(rng.integers(1, 3))):
@@ -127,6 +127,18 @@ def judge_result(out, P, tr, cfg, nit0, n0, where, tags):
     if tr.exc is not None:
         out.count("runs_raised")
         out.count("raised:" + type(tr.exc).__name__)
+        gl = [v for kd, _x, v in tr.evals if kd == "g"]
+        if isinstance(tr.exc, ValueError) and "infs or NaNs" in str(tr.exc) and gl and float(cfg.get("gtol", 1.0) or 0.0) == 0.0:
+            olde = np.seterr(all="ignore")
+            gmax = float(np.max(np.abs(np.asarray(gl[-1], dtype=float)))) if np.size(gl[-1]) else 0.0
+            np.seterr(**olde)
+            if isinstance(cfg.get("scaler"), (int, float)) and tr.scaler_calls:
+                gmax *= abs(float(cfg["scaler"]))  # the solver works with the scaled gradient
+            if gmax * gmax < np.finfo(float).tiny:
+                # the mechanism of the open finding C04-underflow-of-squared-gradient, whatever workload it shows up in: zero tolerance,
+                # and the squares of all components of the last gradient evaluated underflow
+                tags = dict(tags, scenario="gradient_underflow")
+                out.count("runs_raising_after_the_squared_gradient_underflowed")
         out.violate("run_raised_instead_of_reporting", f"{where}: the run raised {tr.exc!r} instead of returning a termination reason "
                     f"(maxiter={cfg['maxiter']}, maxfun={cfg['maxfun']}, maxls={cfg['maxls']})", exc=type(tr.exc).__name__, **tags)
         return None
